@@ -858,6 +858,13 @@ func genCase(rng *RNG, stream string, thorough bool) *Case {
 	}
 	c := &Case{Stream: stream, Mode: "http"}
 	c.V4, c.V6, c.Raw = genTarget(rng, opt)
+	if stream == "dupcontent" && len(c.V4.Groups) >= 2 && rng.Chance(50) {
+		// two TARGET groups with the same content (outside the hypothesis distinctContent of the idempotence theorem)
+		i, j := rng.Intn(len(c.V4.Groups)), rng.Intn(len(c.V4.Groups))
+		if i != j {
+			c.V4.Groups[j].Addrs = append([]string(nil), c.V4.Groups[i].Addrs...)
+		}
+	}
 	c.Store = deriveStore(rng, mergeTarget(c.V4, c.V6, c.Raw), opt)
 	if stream == "idsuffix" {
 		addIdSuffix(rng, c)
